@@ -220,8 +220,10 @@ Print Assumptions C17_slot_fault_accept_uncounted_refuted.
 
 (* ---- per-client quotas on active connection codes / active mappings (storage level) ---- *)
 
-(* the full statement: the quota holds on every schedule.  FALSE for the code (count-then-create at two call sites,
-   no atomic claim): see C17_quota_refuted.  Known findings conncode-create-quota / conncode-activate-mapping-quota. *)
+(* the full statement for the BARE count-then-create shape (the code before /repo 6d9c096, no per-client marker): the quota
+   holds on every schedule.  FALSE for that shape: see C17_quota_refuted; what holds for it is C17_quota_count_exact and the
+   guarded C17_quota_never_exceeds_partial.  For the code as it is now (marker taken with SetNX around count + create) the
+   full statement is PROVED: C17_quota_locked_never_exceeds below. *)
 Definition C17_quota_full_statement : Prop :=
   forall (max base n : nat) (sched : list nat), base <= max -> fst (qrun max base (repeat QStart n) sched) <= max.
 
